@@ -137,6 +137,8 @@ type Gen struct {
 	tail  int // fault-free blocks at the end
 	voted map[uint64]bool
 	down  map[int]bool
+	// IBC objects asked for so far (clients, connections, channels)
+	ibcClients, ibcConns, ibcChans int
 	// gas observed per message mix (for gas starvation draws)
 	simTime int64
 	// ghosts: actors that named an identifier inside the transaction that was to create it
@@ -176,7 +178,7 @@ func DefaultKnobs() Knobs {
 		ValFee:    "0.01", StartPO: 1, StartWrk: 1, StartBeacon: 1, GovSecs: 20, Balance: "1000000000000000000"}
 }
 
-var allFlags = []string{"upcase", "group", "vesting", "extrafee", "nest", "overflow", "longdur", "huge", "denomchange", "minaccepts63", "addr255", "idwrap", "bigfee", "stakebond", "dupsigners", "granter", "rawbytes"}
+var allFlags = []string{"upcase", "group", "vesting", "extrafee", "nest", "overflow", "longdur", "huge", "denomchange", "minaccepts63", "addr255", "idwrap", "bigfee", "stakebond", "dupsigners", "granter", "rawbytes", "ibc"}
 
 // flagRates: probability (percent) that a feature flag is on in a run, per property. Flags tied to
 // a known finding stay rare everywhere except in the property that owns the finding.
@@ -188,6 +190,9 @@ func flagRate(prop, flag string) int {
 	if flag == "rawbytes" {
 		// free-text fields (monikers, names, hashes) holding bytes that are not UTF-8
 		return map[string]int{"C15": 25, "C09": 20, "C07": 10, "C20": 10}[prop]
+	}
+	if flag == "ibc" {
+		return map[string]int{"C01": 30}[prop]
 	}
 	if flag == "group" {
 		// x/group proposals executing module messages: only where the oracles know about them
@@ -502,6 +507,15 @@ func (g *Gen) NextBlock(w *World, bi int) (BlockSpec, bool) {
 			b.Noise = append(b.Noise, g.genNoise(len(b.Txs)))
 		}
 	}
+	if g.Flags["ibc"] {
+		// a wallet estimating gas for a transaction that is being delivered in this very block: the
+		// simulation runs on the check state, which has not seen the block yet
+		for i := range b.Txs {
+			if len(b.Txs[i].Msgs) == 1 && strings.HasPrefix(b.Txs[i].Msgs[0].T, "ibc.") && g.pct(50) {
+				b.Noise = append(b.Noise, NoiseSpec{Kind: "simulate", Tx: i, Pos: pick(g.R, []int{-1, i + 1, len(b.Txs)})})
+			}
+		}
+	}
 	if g.P.Export && !inTail && bi > 3 && g.pct(g.P.ExportPct) {
 		b.Export = true
 	}
@@ -529,6 +543,9 @@ func sortedU64[V any](m map[uint64]V) []uint64 {
 func (g *Gen) category() string {
 	if g.Flags["group"] && g.pct(7) {
 		return "grp"
+	}
+	if g.Flags["ibc"] && g.pct(10) {
+		return "ibc"
 	}
 	tot := 0
 	keys := sortedKeys(g.P.W)
@@ -582,6 +599,8 @@ func (g *Gen) genTx(w *World) []TxSpec {
 		return []TxSpec{g.attackTx(w)}
 	case "grp":
 		return []TxSpec{g.groupTx(w)}
+	case "ibc":
+		return []TxSpec{g.ibcTx(w)}
 	case "nest":
 		return g.nestTx(w)
 	case "multi":
@@ -601,6 +620,31 @@ func (g *Gen) genTx(w *World) []TxSpec {
 		return []TxSpec{g.multiTx(w)}
 	}
 	return nil
+}
+
+// ibcTx: the opening moves of an IBC handshake, which any account may make: a light client, a
+// connection on it, a transfer channel on the connection, and the acknowledgement of a channel (its
+// proof cannot verify - what matters is that every node refuses it in the same way). The handshake
+// goes through x/capability, the one module of the application that keeps part of its state in
+// process memory.
+func (g *Gen) ibcTx(w *World) TxSpec {
+	a := g.actor()
+	var m MsgSpec
+	switch {
+	case g.ibcClients == 0 || g.pct(10):
+		m = MsgSpec{T: "ibc.client", A: a}
+		g.ibcClients++
+	case g.ibcConns == 0 || g.pct(15):
+		m = MsgSpec{T: "ibc.conninit", A: a, Id: uint64(g.R.Intn(g.ibcClients))}
+		g.ibcConns++
+	case g.ibcChans == 0 || g.pct(55):
+		m = MsgSpec{T: "ibc.chaninit", A: a, Id: uint64(g.R.Intn(g.ibcConns))}
+		g.ibcChans++
+	default:
+		m = MsgSpec{T: "ibc.chanack", A: a, Id: uint64(g.R.Intn(g.ibcChans))}
+	}
+	w.Fault("input.ibc_handshake")
+	return TxSpec{Signer: a, Gas: ampleGas, Msgs: []MsgSpec{m}}
 }
 
 // multiPurchaseTx: one owner buys storage for several of its registrations (or twice for the same
